@@ -21,6 +21,7 @@ pub enum DeError {
     InvalidXml(Error),
     UnexpectedStart(Vec<u8>),
     UnexpectedEof,
+    KeyNotRead,
     Other,
 }
 impl vstd::std_specs::convert::FromSpecImpl<Error> for DeError {
@@ -396,6 +397,8 @@ where
     }
     /// nothing peeked and the reader's look-ahead does not continue a text: the next event is not a Text
     spec fn after_text(&self) -> bool { self.peek is None && self.reader.text_done() }
+    pub closed spec fn peeked_text(&self) -> bool { self.peek matches Some(DeEvent::Text(_)) }
+    pub closed spec fn peeked_start(&self) -> bool { self.peek matches Some(DeEvent::Start(_)) }
     /// the next event is a Text without content (an empty CDATA section)
     pub closed spec fn next_is_empty_text(&self) -> bool { self.peek matches Some(DeEvent::Text(t)) && t.text@.len() == 0 }
 //@extract de::Deserializer::new | src/de/mod.rs :: impl<'de, R, E> Deserializer<'de, R, E> where R: XmlRead<'de>, E: EntityResolver, :: fn new | serves=C07 features=serialize
@@ -420,7 +423,7 @@ where
 //@extract de::Deserializer::peek | src/de/mod.rs :: impl<'de, R, E> Deserializer<'de, R, E> where R: XmlRead<'de>, E: EntityResolver, :: fn peek | serves=C07 features=serialize
     fn peek(&mut self) -> (r: Result<&DeEvent<'de>, DeError>)
         requires old(self).inv()
-        ensures final(self).inv(), r is Ok ==> final(self).peek is Some,
+        ensures final(self).inv(), r matches Ok(e) ==> final(self).peek == Some(*e) && de_wf(*e),
             // peeking twice is peeking once
             old(self).peek is Some ==> r is Ok && *final(self) == *old(self),
     {
@@ -491,6 +494,61 @@ where
         self.read_to_end(name)
     }
 //@end
+//@extract de::Deserializer::read_string_impl | src/de/mod.rs :: impl<'de, R, E> Deserializer<'de, R, E> where R: XmlRead<'de>, E: EntityResolver, :: fn read_string_impl | serves=C07 features=serialize
+    /// Consumes consequent [`Text`] and [`CData`] (both a referred below as a _text_)
+    /// events, merge them into one string. If there are no such events, returns
+    /// an empty string.
+    ///
+    /// If `allow_start` is `false`, then only text events are consumed, for other
+    /// events an error is returned (see table below).
+    ///
+    /// If `allow_start` is `true`, then two or three events are expected:
+    /// - [`DeEvent::Start`];
+    /// - _(optional)_ [`DeEvent::Text`] which content is returned;
+    /// - [`DeEvent::End`]. If text event was missed, an empty string is returned.
+    ///
+    /// Corresponding events are consumed.
+    ///
+    /// # Handling events
+    ///
+    /// The table below shows how events is handled by this method:
+    ///
+    /// |Event             |XML                        |Handling
+    /// |------------------|---------------------------|----------------------------------------
+    /// |[`DeEvent::Start`]|`<tag>...</tag>`           |if `allow_start == true`, result determined by the second table, otherwise emits [`UnexpectedStart("tag")`](DeError::UnexpectedStart)
+    /// |[`DeEvent::End`]  |`</any-tag>`               |This is impossible situation, the method will panic if it happens
+    /// |[`DeEvent::Text`] |`text content` or `<![CDATA[cdata content]]>` (probably mixed)|Returns event content unchanged
+    /// |[`DeEvent::Eof`]  |                           |Emits [`UnexpectedEof`](DeError::UnexpectedEof)
+    ///
+    /// Second event, consumed if [`DeEvent::Start`] was received and `allow_start == true`:
+    ///
+    /// |Event             |XML                        |Handling
+    /// |------------------|---------------------------|----------------------------------------------------------------------------------
+    /// |[`DeEvent::Start`]|`<any-tag>...</any-tag>`   |Emits [`UnexpectedStart("any-tag")`](DeError::UnexpectedStart)
+    /// |[`DeEvent::End`]  |`</tag>`                   |Returns an empty slice. The reader guarantee that tag will match the open one
+    /// |[`DeEvent::Text`] |`text content` or `<![CDATA[cdata content]]>` (probably mixed)|Returns event content unchanged, expects the `</tag>` after that
+    /// |[`DeEvent::Eof`]  |                           |Emits [`InvalidXml(IllFormed(MissingEndTag))`](DeError::InvalidXml)
+    ///
+    /// [`Text`]: Event::Text
+    /// [`CData`]: Event::CData
+    fn read_string_impl(&mut self, allow_start: bool) -> (r: Result<Cow<'de, str>, DeError>)
+        // "the reader guarantees that we do not have unmatched tags": that is a protocol between the crate and foreign
+        // visitors in general; for the callers under contract here it is a fact -- they have PEEKED a Start or a Text
+        requires old(self).inv(), old(self).peeked_text() || old(self).peeked_start(),
+        ensures final(self).inv()
+    {
+        match self.next()? {
+            DeEvent::Text(e) => Ok(e.text),
+            // allow one nested level
+            DeEvent::Start(e) if allow_start => self.read_text(e.name()),
+            DeEvent::Start(e) => Err(DeError::UnexpectedStart(e.name().as_ref().to_owned())),
+            // SAFETY: The reader is guaranteed that we don't have unmatched tags
+            // If we here, then out deserializer has a bug
+            DeEvent::End(e) => unreachable!(),
+            DeEvent::Eof => Err(DeError::UnexpectedEof),
+        }
+    }
+//@end
 //@extract de::Deserializer::read_text | src/de/mod.rs :: impl<'de, R, E> Deserializer<'de, R, E> where R: XmlRead<'de>, E: EntityResolver, :: fn read_text | serves=C07 features=serialize
     /// Consumes one [`DeEvent::Text`] event and ensures that it is followed by the
     /// [`DeEvent::End`] event.
@@ -527,6 +585,12 @@ where
 pub trait Visitor<'de>: Sized {
     type Value;
     fn visit_none(self) -> Result<Self::Value, DeError>;
+    fn visit_unit(self) -> Result<Self::Value, DeError>;
+    fn visit_seq<A: SeqModel<'de>>(self, seq: A) -> Result<Self::Value, DeError> requires seq.seq_ok();
+    fn visit_map<A: MapModel<'de>>(self, map: A) -> Result<Self::Value, DeError> requires map.map_ok();
+    fn visit_enum<A: EnumModel<'de>>(self, data: A) -> Result<Self::Value, DeError> requires data.enum_ok();
+    fn visit_borrowed_str(self, v: &'de str) -> Result<Self::Value, DeError>;
+    fn visit_string(self, v: String) -> Result<Self::Value, DeError>;
     fn visit_some<'a, R: XmlRead<'de>, E: EntityResolver>(self, deserializer: &'a mut Deserializer<'de, R, E>) -> Result<Self::Value, DeError>
         requires old(deserializer).inv();
 }
@@ -571,6 +635,1212 @@ where
             }
             _ => visitor.visit_some(self),
         }
+    }
+//@end
+}
+
+// =============================================================================================
+// ---------------------------------------------------------------------------------------------
+// (same unit, same module) the map / value / variant / list accessors of
+// the serde deserializer (src/de/map.rs) on top of unit dexr. C07 mechanism: their `unreachable!()` are
+// justified by comments such as "we set `Text` only when we have seen `Text`" or "we use that deserializer
+// only when we peeked `Start`". Each accessor holds the deserializer through an exclusive borrow and is
+// consumed by the one call made on it, so these are TYPE INVARIANTS: established where the value is
+// constructed (proved: the constructing function must show `ok()` of what it hands to foreign code),
+// assumed at entry (`requires ok()`, the model traits), and enough to PROVE every such site unreachable.
+// ---------------------------------------------------------------------------------------------
+
+use core::ops::Range;
+
+// ---- A-serde: the foreign traits, as far as these functions use them ----
+/// a deserializer handed to foreign code; `de_ok` is its type invariant
+pub trait DeModel<'de>: Sized { spec fn de_ok(&self) -> bool; }
+pub trait SeqModel<'de>: Sized { spec fn seq_ok(&self) -> bool; }
+pub trait MapModel<'de>: Sized { spec fn map_ok(&self) -> bool; }
+pub trait EnumModel<'de>: Sized { spec fn enum_ok(&self) -> bool; }
+pub trait DeserializeSeed<'de>: Sized {
+    type Value;
+    fn deserialize<D: DeModel<'de>>(self, deserializer: D) -> Result<Self::Value, DeError>
+        requires deserializer.de_ok();
+}
+/// stand-ins for deserializers that are not under contract here (their own units: dekey, delist; serde's
+/// BorrowedStrDeserializer); nothing is required of them
+pub struct BorrowedStrDeserializer<'de> { pub value: &'de str }
+impl<'de> BorrowedStrDeserializer<'de> {
+    #[verifier::external_body]
+    pub fn new(value: &'de str) -> (r: Self) { unimplemented!() }
+}
+impl<'de> DeModel<'de> for BorrowedStrDeserializer<'de> { open spec fn de_ok(&self) -> bool { true } }
+pub struct SimpleTypeDeserializer<'de> { pub text: Cow<'de, str> }
+impl<'de> SimpleTypeDeserializer<'de> {
+    #[verifier::external_body]
+    pub fn from_text(text: Cow<'de, str>) -> (r: Self) { unimplemented!() }
+    #[verifier::external_body]
+    pub fn from_text_content(value: Text<'de>) -> (r: Self) { unimplemented!() }
+    #[verifier::external_body]
+    pub fn from_part(value: &Cow<'de, [u8]>, range: Range<usize>, escaped: bool, decoder: Decoder) -> (r: Self) { unimplemented!() }
+    #[verifier::external_body]
+    pub fn deserialize_struct<V: Visitor<'de>>(self, name: &'static str, fields: &'static [&'static str], visitor: V) -> Result<V::Value, DeError> { unimplemented!() }
+    #[verifier::external_body]
+    pub fn deserialize_tuple<V: Visitor<'de>>(self, len: usize, visitor: V) -> Result<V::Value, DeError> { unimplemented!() }
+}
+impl<'de> DeModel<'de> for SimpleTypeDeserializer<'de> { open spec fn de_ok(&self) -> bool { true } }
+impl<'de> EnumModel<'de> for SimpleTypeDeserializer<'de> { open spec fn enum_ok(&self) -> bool { true } }
+
+/// stand-ins for the attribute iterator (verified in unit attrs; C11) and the key deserializer (unit dekey): only that they
+/// return is used here
+pub struct IterState { pub st: u8 }
+pub struct Attr { pub key: Range<usize>, pub value: Option<Range<usize>> }
+pub struct AttrError { pub e: u8 }
+impl IterState {
+    #[verifier::external_body]
+    pub fn new(offset: usize, html: bool) -> (r: Self) { unimplemented!() }
+    #[verifier::external_body]
+    pub fn next(&mut self, slice: &[u8]) -> (r: Option<Result<Attr, AttrError>>)
+        ensures r matches Some(Ok(a)) ==> a.key.start <= a.key.end <= slice@.len()
+    { unimplemented!() }
+}
+impl vstd::std_specs::convert::FromSpecImpl<Attr> for (Range<usize>, Option<Range<usize>>) {
+    open spec fn obeys_from_spec() -> bool { true }
+    open spec fn from_spec(a: Attr) -> Self { (a.key, a.value) }
+}
+impl From<Attr> for (Range<usize>, Option<Range<usize>>) {
+    fn from(a: Attr) -> Self { (a.key, a.value) }
+}
+impl vstd::std_specs::convert::FromSpecImpl<AttrError> for DeError {
+    open spec fn obeys_from_spec() -> bool { false }
+    open spec fn from_spec(e: AttrError) -> Self { arbitrary() }
+}
+impl From<AttrError> for DeError {
+    #[verifier::external_body]
+    fn from(e: AttrError) -> Self { unimplemented!() }
+}
+pub struct QNameDeserializer<'d> { pub name: &'d str }
+impl<'d> QNameDeserializer<'d> {
+    #[verifier::external_body]
+    pub fn from_attr(name: QName<'d>, decoder: Decoder, key_buf: &'d mut String) -> (r: Result<Self, DeError>) { unimplemented!() }
+    #[verifier::external_body]
+    pub fn from_elem<'i>(name: &'i [u8], decoder: Decoder) -> (r: Result<QNameDeserializer<'i>, DeError>) { unimplemented!() }
+}
+impl<'de, 'd> DeModel<'de> for QNameDeserializer<'d> { open spec fn de_ok(&self) -> bool { true } }
+/// assumed: whether the tag is one of the fields (`fields.iter().all(..)` is outside the Verus subset)
+#[verifier::external_body]
+pub fn not_in(fields: &'static [&'static str], start: &BytesStart, decoder: Decoder) -> (r: Result<bool, DeError>) { unimplemented!() }
+/// std: `Option<Result<T, E>>::transpose`, `Option::unwrap_or_default`
+pub assume_specification<T, E>[ Option::<Result<T, E>>::transpose ](o: Option<Result<T, E>>) -> (r: Result<Option<T>, E>)
+    ensures match o { None => r == Result::<Option<T>, E>::Ok(None), Some(Ok(x)) => r == Result::<Option<T>, E>::Ok(Some(x)), Some(Err(e)) => r == Result::<Option<T>, E>::Err(e) };
+//@extract de::TEXT_KEY#dexr | src/de/mod.rs :: const TEXT_KEY | serves=C07 features=serialize
+ pub exec const TEXT_KEY: &'static str
+    ensures TEXT_KEY@ == "$text"@
+ { "$text" }
+//@end
+//@extract de::VALUE_KEY#dexr | src/de/mod.rs :: const VALUE_KEY | serves=C07 features=serialize
+ pub exec const VALUE_KEY: &'static str
+    ensures VALUE_KEY@ == "$value"@
+ { "$value" }
+//@end
+//@extract de::map::ValueSource | src/de/map.rs :: enum ValueSource | serves=C07 features=serialize
+enum ValueSource {
+    /// Source are not specified, because [`next_key_seed()`] not yet called.
+    /// This is an initial state and state after deserializing value
+    /// (after call of [`next_value_seed()`]).
+    ///
+    /// Attempt to call [`next_value_seed()`] while accessor in this state would
+    /// return a [`DeError::KeyNotRead`] error.
+    ///
+    /// [`next_key_seed()`]: MapAccess::next_key_seed
+    /// [`next_value_seed()`]: MapAccess::next_value_seed
+    Unknown,
+    /// Next value should be deserialized from an attribute value; value is located
+    /// at specified span.
+    Attribute(Range<usize>),
+    /// Value should be deserialized from the text content of the XML node, which
+    /// represented or by an ordinary text node, or by a CDATA node:
+    ///
+    /// ```xml
+    /// <any-tag>
+    ///     <key>text content</key>
+    /// <!--     ^^^^^^^^^^^^ - this will be used to deserialize map value -->
+    /// </any-tag>
+    /// ```
+    /// ```xml
+    /// <any-tag>
+    ///     <key><![CDATA[cdata content]]></key>
+    /// <!--              ^^^^^^^^^^^^^ - this will be used to deserialize a map value -->
+    /// </any-tag>
+    /// ```
+    Text,
+    /// Next value should be deserialized from an element with an any name, except
+    /// elements with a name matching one of the struct fields. Corresponding tag
+    /// name will always be associated with a field with name [`VALUE_KEY`].
+    ///
+    /// That state is set when call to [`peek()`] returns a [`Start`] event, which
+    /// [`name()`] is not listed in the [list of known fields] (which for a struct
+    /// is a list of field names, and for a map that is an empty list), _and_
+    /// struct has a field with a special name [`VALUE_KEY`].
+    ///
+    /// When in this state, next event, returned by [`next()`], will be a [`Start`],
+    /// which represents both a key, and a value. Value would be deserialized from
+    /// the whole element and how is will be done determined by the value deserializer.
+    /// The [`ElementMapAccess`] do not consume any events in that state.
+    ///
+    /// Because in that state any encountered `<tag>` is mapped to the [`VALUE_KEY`]
+    /// field, it is possible to use tag name as an enum discriminator, so `enum`s
+    /// can be deserialized from that XMLs:
+    ///
+    /// ```xml
+    /// <any-tag>
+    ///     <variant1>...</variant1>
+    /// <!-- ~~~~~~~~               - this data will determine that this is Enum::variant1 -->
+    /// <!--^^^^^^^^^^^^^^^^^^^^^^^ - this data will be used to deserialize a map value -->
+    /// </any-tag>
+    /// ```
+    /// ```xml
+    /// <any-tag>
+    ///     <variant2>...</variant2>
+    /// <!-- ~~~~~~~~               - this data will determine that this is Enum::variant2 -->
+    /// <!--^^^^^^^^^^^^^^^^^^^^^^^ - this data will be used to deserialize a map value -->
+    /// </any-tag>
+    /// ```
+    ///
+    /// both can be deserialized into
+    ///
+    /// ```ignore
+    /// enum Enum {
+    ///   variant1,
+    ///   variant2,
+    /// }
+    /// struct AnyName {
+    ///   #[serde(rename = "$value")]
+    ///   field: Enum,
+    /// }
+    /// ```
+    ///
+    /// That is possible, because value deserializer have access to the full content
+    /// of a `<variant1>...</variant1>` or `<variant2>...</variant2>` node, including
+    /// the tag name.
+    ///
+    /// [`Start`]: DeEvent::Start
+    /// [`peek()`]: Deserializer::peek()
+    /// [`next()`]: Deserializer::next()
+    /// [`name()`]: BytesStart::name()
+    /// [`Text`]: Self::Text
+    /// [list of known fields]: ElementMapAccess::fields
+    Content,
+    /// Next value should be deserialized from an element with a dedicated name.
+    /// If deserialized type is a sequence, then that sequence will collect all
+    /// elements with the same name until it will be filled. If not all elements
+    /// would be consumed, the rest will be ignored.
+    ///
+    /// That state is set when call to [`peek()`] returns a [`Start`] event, which
+    /// [`name()`] represents a field name. That name will be deserialized as a key.
+    ///
+    /// When in this state, next event, returned by [`next()`], will be a [`Start`],
+    /// which represents both a key, and a value. Value would be deserialized from
+    /// the whole element and how is will be done determined by the value deserializer.
+    /// The [`ElementMapAccess`] do not consume any events in that state.
+    ///
+    /// An illustration below shows, what data is used to deserialize key and value:
+    /// ```xml
+    /// <any-tag>
+    ///     <key>...</key>
+    /// <!-- ~~~           - this data will be used to deserialize a map key -->
+    /// <!--^^^^^^^^^^^^^^ - this data will be used to deserialize a map value -->
+    /// </any-tag>
+    /// ```
+    ///
+    /// Although value deserializer will have access to the full content of a `<key>`
+    /// node (including the tag name), it will not get much benefits from that,
+    /// because tag name will always be fixed for a given map field (equal to a
+    /// field name). So, if the field type is an `enum`, it cannot select its
+    /// variant based on the tag name. If that is needed, then [`Content`] variant
+    /// of this enum should be used. Such usage is enabled by annotating a struct
+    /// field as "content" field, which implemented as given the field a special
+    /// [`VALUE_KEY`] name.
+    ///
+    /// [`Start`]: DeEvent::Start
+    /// [`peek()`]: Deserializer::peek()
+    /// [`next()`]: Deserializer::next()
+    /// [`name()`]: BytesStart::name()
+    /// [`Content`]: Self::Content
+    Nested,
+}
+//@end
+//@extract de::map::ElementMapAccess | src/de/map.rs :: struct ElementMapAccess | serves=C07 features=serialize
+ struct ElementMapAccess<'de, 'd, R, E>
+where
+    R: XmlRead<'de>,
+    E: EntityResolver,
+{
+    /// Tag -- owner of attributes
+    start: BytesStart<'de>,
+    de: &'d mut Deserializer<'de, R, E>,
+    /// State of the iterator over attributes. Contains the next position in the
+    /// inner `start` slice, from which next attribute should be parsed.
+    iter: IterState,
+    /// Current state of the accessor that determines what next call to API
+    /// methods should return.
+    source: ValueSource,
+    /// List of field names of the struct. It is empty for maps
+    fields: &'static [&'static str],
+    /// If `true`, then the deserialized struct has a field with a special name:
+    /// [`VALUE_KEY`]. That field should be deserialized from the whole content
+    /// of an XML node, including tag name:
+    ///
+    /// ```xml
+    /// <tag>value for VALUE_KEY field<tag>
+    /// ```
+    has_value_field: bool,
+}
+//@end
+
+//@extract de::map::TagFilter | src/de/map.rs :: enum TagFilter | serves=C07 features=serialize
+enum TagFilter<'de> {
+    /// A `SeqAccess` interested only in tags with specified name to deserialize
+    /// an XML like this:
+    ///
+    /// ```xml
+    /// <...>
+    ///   <tag/>
+    ///   <tag/>
+    ///   <tag/>
+    ///   ...
+    /// </...>
+    /// ```
+    ///
+    /// The tag name is stored inside (`b"tag"` for that example)
+    Include(BytesStart<'de>), //TODO: Need to store only name instead of a whole tag
+    /// A `SeqAccess` interested in tags with any name, except explicitly listed.
+    /// Excluded tags are used as struct field names and therefore should not
+    /// fall into a `$value` category
+    Exclude(&'static [&'static str]),
+}
+//@end
+//@extract de::map::MapValueDeserializer | src/de/map.rs :: struct MapValueDeserializer | serves=C07 features=serialize
+////////////////////////////////////////////////////////////////////////////////////////////////////
+
+/// A deserializer for a value of map or struct. That deserializer slightly
+/// differently processes events for a primitive types and sequences than
+/// a [`Deserializer`].
+///
+/// This deserializer used to deserialize two kinds of fields:
+/// - usual fields with a dedicated name, such as `field_one` or `field_two`, in
+///   that case field [`Self::fixed_name`] is `true`;
+/// - the special `$value` field which represents any tag or a textual content
+///   in the XML which would be found in the document, in that case field
+///   [`Self::fixed_name`] is `false`.
+///
+/// This deserializer can see two kind of events at the start:
+/// - [`DeEvent::Text`]
+/// - [`DeEvent::Start`]
+///
+/// which represents two possible variants of items:
+/// ```xml
+/// <item>A tag item</item>
+/// A text item
+/// <yet another="tag item"/>
+/// ```
+///
+/// This deserializer are very similar to a [`ElementDeserializer`]. The only difference
+/// in the `deserialize_seq` method. This deserializer will act as an iterator
+/// over tags / text within it's parent tag, whereas the [`ElementDeserializer`]
+/// will represent sequences as an `xs:list`.
+///
+/// This deserializer processes items as following:
+/// - primitives (numbers, booleans, strings, characters) are deserialized either
+///   from a text content, or unwrapped from a one level of a tag. So, `123` and
+///   `<int>123</int>` both can be deserialized into an `u32`;
+/// - `Option`:
+///   - empty text of [`DeEvent::Text`] is deserialized as `None`;
+///   - everything else are deserialized as `Some` using the same deserializer,
+///     including `<tag/>` or `<tag></tag>`;
+/// - units (`()`) and unit structs consumes the whole text or element subtree;
+/// - newtype structs are deserialized by forwarding deserialization of inner type
+///   with the same deserializer;
+/// - sequences, tuples and tuple structs are deserialized by iterating within the
+///   parent tag and deserializing each tag or text content using [`ElementDeserializer`];
+/// - structs and maps are deserialized using new instance of [`ElementMapAccess`];
+/// - enums:
+///   - in case of [`DeEvent::Text`] event the text content is deserialized as
+///     a `$text` variant. Enum content is deserialized from the text using
+///     [`SimpleTypeDeserializer`];
+///   - in case of [`DeEvent::Start`] event the tag name is deserialized as
+///     an enum tag, and the content inside are deserialized as an enum content.
+///     Depending on a variant kind deserialization is performed as:
+///     - unit variants: consuming text content or a subtree;
+///     - newtype variants: forward deserialization to the inner type using
+///       this deserializer;
+///     - tuple variants: call [`deserialize_tuple`] of this deserializer;
+///     - struct variants: call [`deserialize_struct`] of this deserializer.
+///
+/// [`deserialize_tuple`]: #method.deserialize_tuple
+/// [`deserialize_struct`]: #method.deserialize_struct
+struct MapValueDeserializer<'de, 'd, 'm, R, E>
+where
+    R: XmlRead<'de>,
+    E: EntityResolver,
+{
+    /// Access to the map that created this deserializer. Gives access to the
+    /// context, such as list of fields, that current map known about.
+    map: &'m mut ElementMapAccess<'de, 'd, R, E>,
+    /// Whether this deserializer was created for deserialization from an element
+    /// with fixed name, or the elements with different names or even text are allowed.
+    ///
+    /// If this field is `true`, we process `<tag>` element in the following XML shape:
+    ///
+    /// ```xml
+    /// <any-tag>
+    ///   <tag>...</tag>
+    /// </any-tag>
+    /// ```
+    ///
+    /// The whole map represented by an `<any-tag>` element, the map key is a `tag`,
+    /// and the value starts with is a `Start("tag")` (the value deserializer will
+    /// see that event first) and extended to the matching `End("tag")` event.
+    /// In order to deserialize primitives (such as `usize`) we need to allow to
+    /// look inside the one levels of tags, so the
+    ///
+    /// ```xml
+    /// <tag>42<tag>
+    /// ```
+    ///
+    /// could be deserialized into `42usize` without problems, and at the same time
+    ///
+    /// ```xml
+    /// <tag>
+    ///   <key1/>
+    ///   <key2/>
+    ///   <!--...-->
+    /// <tag>
+    /// ```
+    /// could be deserialized to a struct.
+    ///
+    /// If this field is `false`, we processes the one of following XML shapes:
+    ///
+    /// ```xml
+    /// <any-tag>
+    ///   text value
+    /// </any-tag>
+    /// ```
+    /// ```xml
+    /// <any-tag>
+    ///   <![CDATA[cdata value]]>
+    /// </any-tag>
+    /// ```
+    /// ```xml
+    /// <any-tag>
+    ///   <any>...</any>
+    /// </any-tag>
+    /// ```
+    ///
+    /// The whole map represented by an `<any-tag>` element, the map key is
+    /// implicit and equals to the [`VALUE_KEY`] constant, and the value is
+    /// a [`Text`], or a [`Start`] event (the value deserializer will see one of
+    /// those events). In the first two cases the value of this field do not matter
+    /// (because we already see the textual event and there no reasons to look
+    /// "inside" something), but in the last case the primitives should raise
+    /// a deserialization error, because that means that you trying to deserialize
+    /// the following struct:
+    ///
+    /// ```ignore
+    /// struct AnyName {
+    ///   #[serde(rename = "$value")]
+    ///   any_name: String,
+    /// }
+    /// ```
+    /// which means that `any_name` should get a content of the `<any-tag>` element.
+    ///
+    /// Changing this can be valuable for <https://github.com/tafia/quick-xml/issues/383>,
+    /// but those fields should be explicitly marked that they want to get any
+    /// possible markup as a `String` and that mark is different from marking them
+    /// as accepting "text content" which the currently `$text` means.
+    ///
+    /// [`Text`]: DeEvent::Text
+    /// [`Start`]: DeEvent::Start
+    fixed_name: bool,
+}
+//@end
+//@extract de::map::MapValueVariantAccess | src/de/map.rs :: struct MapValueVariantAccess | serves=C07 features=serialize
+struct MapValueVariantAccess<'de, 'd, 'm, R, E>
+where
+    R: XmlRead<'de>,
+    E: EntityResolver,
+{
+    /// Access to the map that created this enum accessor. Gives access to the
+    /// context, such as list of fields, that current map known about.
+    map: &'m mut ElementMapAccess<'de, 'd, R, E>,
+    /// `true` if variant should be deserialized from a textual content
+    /// and `false` if from tag
+    is_text: bool,
+}
+//@end
+//@extract de::map::MapValueSeqAccess | src/de/map.rs :: struct MapValueSeqAccess | serves=C07 features=serialize
+////////////////////////////////////////////////////////////////////////////////////////////////////
+
+/// An accessor to sequence elements forming a value for struct field.
+/// Technically, this sequence is flattened out into structure and sequence
+/// elements are overlapped with other fields of a structure. Each call to
+/// [`Self::next_element_seed`] consumes a next sub-tree or consequent list
+/// of [`Text`] and [`CData`] events.
+///
+/// ```xml
+/// <>
+///   ...
+///   <item>The is the one item</item>
+///   This is <![CDATA[one another]]> item<!-- even when--> it splitted by comments
+///   <tag>...and that is the third!</tag>
+///   ...
+/// </>
+/// ```
+///
+/// Depending on [`Self::filter`], only some of that possible constructs would be
+/// an element.
+///
+/// [`Text`]: crate::events::Event::Text
+/// [`CData`]: crate::events::Event::CData
+struct MapValueSeqAccess<'de, 'd, 'm, R, E>
+where
+    R: XmlRead<'de>,
+    E: EntityResolver,
+{
+    /// Accessor to a map that creates this accessor and to a deserializer for
+    /// a sequence items.
+    map: &'m mut ElementMapAccess<'de, 'd, R, E>,
+    /// Filter that determines whether a tag is a part of this sequence.
+    ///
+    /// When feature [`overlapped-lists`] is not activated, iteration will stop
+    /// when found a tag that does not pass this filter.
+    ///
+    /// When feature [`overlapped-lists`] is activated, all tags, that not pass
+    /// this check, will be skipped.
+    ///
+    /// [`overlapped-lists`]: ../../index.html#overlapped-lists
+    filter: TagFilter<'de>,
+}
+//@end
+//@extract de::map::ElementDeserializer | src/de/map.rs :: struct ElementDeserializer | serves=C07 features=serialize
+////////////////////////////////////////////////////////////////////////////////////////////////////
+
+/// A deserializer for a single tag item of a mixed sequence of tags and text.
+///
+/// This deserializer are very similar to a [`MapValueDeserializer`] (when it
+/// processes the [`DeEvent::Start`] event). The only difference in the
+/// [`deserialize_seq`] method. This deserializer will perform deserialization
+/// from the textual content between start and end events, whereas the
+/// [`MapValueDeserializer`] will iterate over tags / text within it's parent tag.
+///
+/// This deserializer processes items as following:
+/// - numbers are parsed from a text content between tags using [`FromStr`]. So,
+///   `<int>123</int>` can be deserialized into an `u32`;
+/// - booleans converted from a text content between tags according to the XML
+///   [specification]:
+///   - `"true"` and `"1"` converted to `true`;
+///   - `"false"` and `"0"` converted to `false`;
+/// - strings returned as a text content between tags;
+/// - characters also returned as strings. If string contain more than one character
+///   or empty, it is responsibility of a type to return an error;
+/// - `Option` are always deserialized as `Some` using the same deserializer,
+///   including `<tag/>` or `<tag></tag>`;
+/// - units (`()`) and unit structs consumes the whole element subtree;
+/// - newtype structs forwards deserialization to the inner type using
+///   [`SimpleTypeDeserializer`];
+/// - sequences, tuples and tuple structs are deserialized using [`SimpleTypeDeserializer`]
+///   (this is the difference): text content between tags is passed to
+///   [`SimpleTypeDeserializer`];
+/// - structs and maps are deserialized using new instance of [`ElementMapAccess`];
+/// - enums:
+///   - the variant name is deserialized using [`QNameDeserializer`] from the element name;
+///   - the content is deserialized using the same deserializer:
+///     - unit variants: consuming a subtree and return `()`;
+///     - newtype variants forwards deserialization to the inner type using
+///       this deserializer;
+///     - tuple variants: call [`deserialize_tuple`] of this deserializer;
+///     - struct variants: call [`deserialize_struct`] of this deserializer.
+///
+/// [`deserialize_seq`]: #method.deserialize_seq
+/// [`FromStr`]: std::str::FromStr
+/// [specification]: https://www.w3.org/TR/xmlschema11-2/#boolean
+/// [`deserialize_tuple`]: #method.deserialize_tuple
+/// [`deserialize_struct`]: #method.deserialize_struct
+struct ElementDeserializer<'de, 'd, R, E>
+where
+    R: XmlRead<'de>,
+    E: EntityResolver,
+{
+    start: BytesStart<'de>,
+    de: &'d mut Deserializer<'de, R, E>,
+}
+//@end
+//@extract de::text::TextDeserializer | src/de/text.rs :: struct TextDeserializer | serves=C07 features=serialize
+ struct TextDeserializer<'de>(pub Text<'de>);
+//@end
+
+// ---- the type invariants ----
+impl<'de, 'd, R, E> ElementMapAccess<'de, 'd, R, E>
+where
+    R: XmlRead<'de>,
+    E: EntityResolver,
+{
+    /// "we set `Text` only when we have seen `Text`", ...: the source of the value that next_key_seed announced is what
+    /// the deserializer has PEEKED (and therefore what its next() will return)
+    pub closed spec fn inv(&self) -> bool {
+        &&& self.de.inv() && self.start.name_len <= self.start.buf@.len()
+        &&& self.source is Text ==> self.de.peeked_text()
+        &&& self.source is Content ==> (self.de.peeked_text() || self.de.peeked_start())
+        &&& self.source is Nested ==> self.de.peeked_start()
+    }
+}
+impl<'de, 'd, 'm, R, E> MapValueDeserializer<'de, 'd, 'm, R, E>
+where
+    R: XmlRead<'de>,
+    E: EntityResolver,
+{
+    /// "we use that deserializer only when we peeked `Start` or `Text`; with `fixed_name == true` only when we peeked `Start`"
+    pub closed spec fn ok(&self) -> bool {
+        &&& self.map.de.inv() && self.map.start.name_len <= self.map.start.buf@.len()
+        &&& self.map.source is Unknown
+        &&& self.map.de.peeked_text() || self.map.de.peeked_start()
+        &&& self.fixed_name ==> self.map.de.peeked_start()
+    }
+}
+impl<'de, 'd, 'm, R: XmlRead<'de>, E: EntityResolver> DeModel<'de> for MapValueDeserializer<'de, 'd, 'm, R, E> {
+    closed spec fn de_ok(&self) -> bool { self.ok() }
+}
+impl<'de, 'd, 'm, R: XmlRead<'de>, E: EntityResolver> EnumModel<'de> for MapValueDeserializer<'de, 'd, 'm, R, E> {
+    closed spec fn enum_ok(&self) -> bool { self.ok() }
+}
+/// assumed: `fields.contains(&VALUE_KEY)` (slice::contains on &str)
+#[verifier::external_body]
+pub fn has_value_key(fields: &'static [&'static str]) -> bool { unimplemented!() }
+/// `#[derive(Clone)]` of BytesStart (assumed): the copy has the same bytes and the same name length
+#[verifier::external_body]
+pub fn clone_start<'a>(e: &BytesStart<'a>) -> (r: BytesStart<'a>)
+    ensures r.buf@ == e.buf@, r.name_len == e.name_len
+{ unimplemented!() }
+impl<'de, 'd, 'm, R, E> MapValueVariantAccess<'de, 'd, 'm, R, E>
+where
+    R: XmlRead<'de>,
+    E: EntityResolver,
+{
+    /// "the other events are filtered in `variant_seed()`": a Start or a Text was peeked, a Text if `is_text`
+    pub closed spec fn ok(&self) -> bool {
+        &&& self.map.de.inv() && self.map.start.name_len <= self.map.start.buf@.len()
+        &&& self.map.source is Unknown
+        &&& self.map.de.peeked_text() || self.map.de.peeked_start()
+        &&& self.is_text == self.map.de.peeked_text()
+    }
+}
+impl<'de, 'd, 'm, R, E> MapValueSeqAccess<'de, 'd, 'm, R, E>
+where
+    R: XmlRead<'de>,
+    E: EntityResolver,
+{
+    pub closed spec fn ok(&self) -> bool {
+        &&& self.map.de.inv() && self.map.source is Unknown
+        &&& self.map.start.name_len <= self.map.start.buf@.len()
+        &&& self.filter matches TagFilter::Include(n) ==> n.name_len <= n.buf@.len()
+    }
+}
+impl<'de, 'd, 'm, R: XmlRead<'de>, E: EntityResolver> SeqModel<'de> for MapValueSeqAccess<'de, 'd, 'm, R, E> {
+    closed spec fn seq_ok(&self) -> bool { self.ok() }
+}
+impl<'de, 'd, R: XmlRead<'de>, E: EntityResolver> MapModel<'de> for ElementMapAccess<'de, 'd, R, E> {
+    closed spec fn map_ok(&self) -> bool { self.inv() && self.source is Unknown }
+}
+impl<'de> DeModel<'de> for TextDeserializer<'de> { open spec fn de_ok(&self) -> bool { true } }
+impl<'de, 'd, R: XmlRead<'de>, E: EntityResolver> DeModel<'de> for ElementDeserializer<'de, 'd, R, E> {
+    closed spec fn de_ok(&self) -> bool { self.de.inv() && self.start.name_len <= self.start.buf@.len() }
+}
+impl<'de, 'd, R, E> ElementMapAccess<'de, 'd, R, E>
+where
+    R: XmlRead<'de>,
+    E: EntityResolver,
+{
+//@extract de::map::ElementMapAccess::new | src/de/map.rs :: impl<'de, 'd, R, E> ElementMapAccess<'de, 'd, R, E> where R: XmlRead<'de>, E: EntityResolver, :: fn new | serves=C07 features=serialize
+//@rewrite fields.contains(&VALUE_KEY) ==> has_value_key(fields)
+ fn new(
+        de: &'d mut Deserializer<'de, R, E>,
+        start: BytesStart<'de>,
+        fields: &'static [&'static str],
+    ) -> (r: Result<Self, DeError>)
+        requires old(de).inv(), start.name_len <= start.buf@.len(),
+        // a new map access has announced nothing yet
+        ensures r matches Ok(m) ==> m.inv() && m.source is Unknown && m.start == start,
+    {
+        Ok(Self {
+            de,
+            iter: IterState::new(start.name().as_ref().len(), false),
+            start,
+            source: ValueSource::Unknown,
+            fields,
+            has_value_field: has_value_key(fields),
+        })
+    }
+//@end
+//@extract de::map::ElementMapAccess::next_key_seed | src/de/map.rs :: impl<'de, 'd, R, E> MapAccess<'de> for ElementMapAccess<'de, 'd, R, E> where R: XmlRead<'de>, E: EntityResolver, :: fn next_key_seed | serves=C07 features=serialize
+//@rewrite Self::Error ==> DeError
+//@rewrite assert!(self.source == ValueSource::Unknown); ==> 
+//@rewrite assert!(self.start.name() == e.name()); ==> 
+//@rewrite-all BorrowedStrDeserializer::<DeError>::new( ==> BorrowedStrDeserializer::new(
+//@rewrite-all .map(Some) ==> .map(|v__: K::Value| Some(v__))
+//@rewrite e.raw_name() ==> e.name().0
+    fn next_key_seed<K: DeserializeSeed<'de>>(
+        &mut self,
+        seed: K,
+    ) -> (r: Result<Option<K::Value>, DeError>)
+        requires old(self).inv(),
+        // C07: whatever source is announced for the value, it is what the deserializer has peeked (the invariant that
+        // next_value_seed and the value deserializers rely on)
+        ensures r is Ok ==> final(self).inv(), final(self).de.inv(),
+            final(self).start == old(self).start,
+    {
+        let slice = &self.start.buf;
+        let decoder = self.de.reader.decoder();
+
+        if let Some(a) = self.iter.next(slice).transpose()? {
+            // try getting map from attributes (key= "value")
+            let (key, value) = a.into();
+            self.source = ValueSource::Attribute(value.unwrap_or_default());
+
+            let de =
+                QNameDeserializer::from_attr(QName(&slice[key]), decoder, &mut self.de.key_buf)?;
+            seed.deserialize(de).map(|v__: K::Value| Some(v__))
+        } else {
+            // try getting from events (<key>value</key>)
+            match self.de.peek()? {
+                // We shouldn't have both `$value` and `$text` fields in the same
+                // struct, so if we have `$value` field, the we should deserialize
+                // text content to `$value`
+                DeEvent::Text(_) if self.has_value_field => {
+                    self.source = ValueSource::Content;
+                    // Deserialize `key` from special attribute name which means
+                    // that value should be taken from the text content of the
+                    // XML node
+                    let de = BorrowedStrDeserializer::new(VALUE_KEY);
+                    seed.deserialize(de).map(|v__: K::Value| Some(v__))
+                }
+                DeEvent::Text(_) => {
+                    self.source = ValueSource::Text;
+                    // Deserialize `key` from special attribute name which means
+                    // that value should be taken from the text content of the
+                    // XML node
+                    let de = BorrowedStrDeserializer::new(TEXT_KEY);
+                    seed.deserialize(de).map(|v__: K::Value| Some(v__))
+                }
+                // Used to deserialize collections of enums, like:
+                // <root>
+                //   <A/>
+                //   <B/>
+                //   <C/>
+                // </root>
+                //
+                // into
+                //
+                // enum Enum { A, B, С }
+                // struct Root {
+                //     #[serde(rename = "$value")]
+                //     items: Vec<Enum>,
+                // }
+                // TODO: This should be handled by #[serde(flatten)]
+                // See https://github.com/serde-rs/serde/issues/1905
+                DeEvent::Start(e) if self.has_value_field && not_in(self.fields, e, decoder)? => {
+                    self.source = ValueSource::Content;
+
+                    let de = BorrowedStrDeserializer::new(VALUE_KEY);
+                    seed.deserialize(de).map(|v__: K::Value| Some(v__))
+                }
+                DeEvent::Start(e) => {
+                    self.source = ValueSource::Nested;
+
+                    let de = QNameDeserializer::from_elem(e.name().0, decoder)?;
+                    seed.deserialize(de).map(|v__: K::Value| Some(v__))
+                }
+                // Stop iteration after reaching a closing tag
+                // The matching tag name is guaranteed by the reader if our
+                // deserializer implementation is correct
+                DeEvent::End(e) => {
+                    self.de.next()?;
+                    Ok(None)
+                }
+                // We cannot get `Eof` legally, because we always inside of the
+                // opened tag `self.start`
+                DeEvent::Eof => Err(Error::missed_end(self.start.name(), decoder).into()),
+            }
+        }
+    }
+//@end
+//@extract de::map::ElementMapAccess::next_value_seed | src/de/map.rs :: impl<'de, 'd, R, E> MapAccess<'de> for ElementMapAccess<'de, 'd, R, E> where R: XmlRead<'de>, E: EntityResolver, :: fn next_value_seed | serves=C07 features=serialize
+//@rewrite Self::Error ==> DeError
+    fn next_value_seed<K: DeserializeSeed<'de>>(
+        &mut self,
+        seed: K,
+    ) -> (r: Result<K::Value, DeError>)
+        // C07: the announced source is what was peeked: the `unreachable!()` below is unreachable, and the value deserializer
+        // handed to the seed satisfies ITS invariant
+        requires old(self).inv()
+    {
+        match std::mem::replace(&mut self.source, ValueSource::Unknown) {
+            ValueSource::Attribute(value) => seed.deserialize(SimpleTypeDeserializer::from_part(
+                &self.start.buf,
+                value,
+                true,
+                self.de.reader.decoder(),
+            )),
+            // This arm processes the following XML shape:
+            // <any-tag>
+            //   text value
+            // </any-tag>
+            // The whole map represented by an `<any-tag>` element, the map key
+            // is implicit and equals to the `TEXT_KEY` constant, and the value
+            // is a `Text` event (the value deserializer will see that event)
+            // This case are checked by "xml_schema_lists::element" tests in tests/serde-de.rs
+            ValueSource::Text => match self.de.next()? {
+                DeEvent::Text(e) => seed.deserialize(SimpleTypeDeserializer::from_text_content(e)),
+                // SAFETY: We set `Text` only when we seen `Text`
+                _ => unreachable!(),
+            },
+            // This arm processes the following XML shape:
+            // <any-tag>
+            //   <any>...</any>
+            // </any-tag>
+            // The whole map represented by an `<any-tag>` element, the map key
+            // is implicit and equals to the `VALUE_KEY` constant, and the value
+            // is a `Start` event (the value deserializer will see that event)
+            ValueSource::Content => seed.deserialize(MapValueDeserializer {
+                map: self,
+                fixed_name: false,
+            }),
+            // This arm processes the following XML shape:
+            // <any-tag>
+            //   <tag>...</tag>
+            // </any-tag>
+            // The whole map represented by an `<any-tag>` element, the map key
+            // is a `tag`, and the value is a `Start` event (the value deserializer
+            // will see that event)
+            ValueSource::Nested => seed.deserialize(MapValueDeserializer {
+                map: self,
+                fixed_name: true,
+            }),
+            ValueSource::Unknown => Err(DeError::KeyNotRead),
+        }
+    }
+//@end
+}
+
+impl<'de, 'd, 'm, R, E> MapValueDeserializer<'de, 'd, 'm, R, E>
+where
+    R: XmlRead<'de>,
+    E: EntityResolver,
+{
+    /// the forwarding `deserialize_tuple` (generated by a serde macro) is not under contract: it needs the invariant, like the rest
+    #[verifier::external_body]
+    pub fn deserialize_tuple<V: Visitor<'de>>(self, len: usize, visitor: V) -> Result<V::Value, DeError>
+        requires self.ok()
+    { unimplemented!() }
+//@extract de::map::MapValueDeserializer::read_string | src/de/map.rs :: impl<'de, 'd, 'm, R, E> MapValueDeserializer<'de, 'd, 'm, R, E> where R: XmlRead<'de>, E: EntityResolver, :: fn read_string | serves=C07 features=serialize
+    fn read_string(&mut self) -> (r: Result<Cow<'de, str>, DeError>)
+        requires old(self).ok()
+    {
+        // TODO: Read the whole content to fix https://github.com/tafia/quick-xml/issues/483
+        self.map.de.read_string_impl(self.fixed_name)
+    }
+//@end
+//@extract de::map::MapValueDeserializer::deserialize_seq | src/de/map.rs :: impl<'de, 'd, 'm, R, E> de::Deserializer<'de> for MapValueDeserializer<'de, 'd, 'm, R, E> where R: XmlRead<'de>, E: EntityResolver, :: fn deserialize_seq | serves=C07 features=serialize
+//@rewrite TagFilter::Include(e.clone()) ==> TagFilter::Include(clone_start(e))
+//@rewrite-opt Self::Error ==> DeError
+    /// Deserializes each `<tag>` in
+    /// ```xml
+    /// <any-tag>
+    ///   <tag>...</tag>
+    ///   <tag>...</tag>
+    ///   <tag>...</tag>
+    /// </any-tag>
+    /// ```
+    /// as a sequence item, where `<any-tag>` represents a Map in a [`Self::map`],
+    /// and a `<tag>` is a sequential field of that map.
+    fn deserialize_seq<V>(self, visitor: V) -> (r: Result<V::Value, DeError>)
+    where
+        V: Visitor<'de>,
+        requires self.ok(),
+    {
+        let filter = if self.fixed_name {
+            match self.map.de.peek()? {
+                // Clone is cheap if event borrows from the input
+                DeEvent::Start(e) => TagFilter::Include(clone_start(e)),
+                // SAFETY: we use that deserializer with `fixed_name == true`
+                // only from the `ElementMapAccess::next_value_seed` and only when we
+                // peeked `Start` event
+                _ => unreachable!(),
+            }
+        } else {
+            TagFilter::Exclude(self.map.fields)
+        };
+        visitor.visit_seq(MapValueSeqAccess {
+
+            map: self.map,
+            filter,
+        })
+    }
+//@end
+//@extract de::map::MapValueDeserializer::deserialize_enum | src/de/map.rs :: impl<'de, 'd, 'm, R, E> de::Deserializer<'de> for MapValueDeserializer<'de, 'd, 'm, R, E> where R: XmlRead<'de>, E: EntityResolver, :: fn deserialize_enum | serves=C07 features=serialize
+//@rewrite-opt Self::Error ==> DeError
+    fn deserialize_enum<V>(
+        self,
+        _name: &'static str,
+        _variants: &'static [&'static str],
+        visitor: V,
+    ) -> (r: Result<V::Value, DeError>)
+    where
+        V: Visitor<'de>,
+        requires self.ok(),
+    {
+        if self.fixed_name {
+            match self.map.de.next()? {
+                // Handles <field>UnitEnumVariant</field>
+                DeEvent::Start(e) => {
+                    // skip <field>, read text after it and ensure that it is ended by </field>
+                    let text = self.map.de.read_text(e.name())?;
+                    if text.is_empty() {
+                        // Map empty text (<field/>) to a special `$text` variant
+                        visitor.visit_enum(SimpleTypeDeserializer::from_text(TEXT_KEY.into()))
+                    } else {
+                        visitor.visit_enum(SimpleTypeDeserializer::from_text(text))
+                    }
+                }
+                // SAFETY: we use that deserializer with `fixed_name == true`
+                // only from the `MapAccess::next_value_seed` and only when we
+                // peeked `Start` event
+                _ => unreachable!(),
+            }
+        } else {
+            visitor.visit_enum(self)
+        }
+    }
+//@end
+//@extract de::map::MapValueDeserializer::variant_seed | src/de/map.rs :: impl<'de, 'd, 'm, R, E> de::EnumAccess<'de> for MapValueDeserializer<'de, 'd, 'm, R, E> where R: XmlRead<'de>, E: EntityResolver, :: fn variant_seed | serves=C07 features=serialize
+//@rewrite Self::Variant ==> MapValueVariantAccess<'de, 'd, 'm, R, E>
+//@rewrite-all BorrowedStrDeserializer::<DeError>::new( ==> BorrowedStrDeserializer::new(
+//@rewrite e.raw_name() ==> e.name().0
+//@rewrite-opt Self::Error ==> DeError
+    fn variant_seed<V>(self, seed: V) -> (r: Result<(V::Value, MapValueVariantAccess<'de, 'd, 'm, R, E>), DeError>)
+    where
+        V: DeserializeSeed<'de>,
+        requires self.ok(),
+        // "the other events are filtered in `variant_seed()`": the variant access knows what was peeked
+        ensures r matches Ok(p) ==> p.1.ok(),
+    {
+        let decoder = self.map.de.reader.decoder();
+        let (name, is_text) = match self.map.de.peek()? {
+            DeEvent::Start(e) => (
+                seed.deserialize(QNameDeserializer::from_elem(e.name().0, decoder)?)?,
+                false,
+            ),
+            DeEvent::Text(_) => (
+                seed.deserialize(BorrowedStrDeserializer::new(TEXT_KEY))?,
+                true,
+            ),
+            // SAFETY: we use that deserializer only when we peeked `Start` or `Text` event
+            _ => unreachable!(),
+        };
+        Ok((
+            name,
+            MapValueVariantAccess {
+                map: self.map,
+                is_text,
+            },
+        ))
+    }
+//@end
+}
+impl<'de, 'd, 'm, R, E> MapValueVariantAccess<'de, 'd, 'm, R, E>
+where
+    R: XmlRead<'de>,
+    E: EntityResolver,
+{
+//@extract de::map::MapValueVariantAccess::unit_variant | src/de/map.rs :: impl<'de, 'd, 'm, R, E> de::VariantAccess<'de> for MapValueVariantAccess<'de, 'd, 'm, R, E> where R: XmlRead<'de>, E: EntityResolver, :: fn unit_variant | serves=C07 features=serialize
+//@rewrite-opt Self::Error ==> DeError
+    fn unit_variant(self) -> (r: Result<(), DeError>)
+        requires self.ok(),
+    {
+        match self.map.de.next()? {
+            // Consume subtree
+            DeEvent::Start(e) => self.map.de.read_to_end(e.name()),
+            // Does not needed to deserialize using SimpleTypeDeserializer, because
+            // it returns `()` when `deserialize_unit()` is requested
+            DeEvent::Text(_) => Ok(()),
+            // SAFETY: the other events are filtered in `variant_seed()`
+            _ => unreachable!(),
+        }
+    }
+//@end
+//@extract de::map::MapValueVariantAccess::newtype_variant_seed | src/de/map.rs :: impl<'de, 'd, 'm, R, E> de::VariantAccess<'de> for MapValueVariantAccess<'de, 'd, 'm, R, E> where R: XmlRead<'de>, E: EntityResolver, :: fn newtype_variant_seed | serves=C07 features=serialize
+//@rewrite-opt Self::Error ==> DeError
+    fn newtype_variant_seed<T>(self, seed: T) -> (r: Result<T::Value, DeError>)
+    where
+        T: DeserializeSeed<'de>,
+        requires self.ok(),
+    {
+        if self.is_text {
+            match self.map.de.next()? {
+                DeEvent::Text(e) => seed.deserialize(SimpleTypeDeserializer::from_text_content(e)),
+                // SAFETY: the other events are filtered in `variant_seed()`
+                _ => unreachable!(),
+            }
+        } else {
+            seed.deserialize(MapValueDeserializer {
+                map: self.map,
+                // Because element name already was either mapped to a field name,
+                // or to a variant name, we should not treat it as variable
+                fixed_name: true,
+            })
+        }
+    }
+//@end
+//@extract de::map::MapValueVariantAccess::tuple_variant | src/de/map.rs :: impl<'de, 'd, 'm, R, E> de::VariantAccess<'de> for MapValueVariantAccess<'de, 'd, 'm, R, E> where R: XmlRead<'de>, E: EntityResolver, :: fn tuple_variant | serves=C07 features=serialize
+//@rewrite-opt Self::Error ==> DeError
+    fn tuple_variant<V>(self, len: usize, visitor: V) -> (r: Result<V::Value, DeError>)
+    where
+        V: Visitor<'de>,
+        requires self.ok(),
+    {
+        if self.is_text {
+            match self.map.de.next()? {
+                DeEvent::Text(e) => {
+                    SimpleTypeDeserializer::from_text_content(e).deserialize_tuple(len, visitor)
+                }
+                // SAFETY: the other events are filtered in `variant_seed()`
+                _ => unreachable!(),
+            }
+        } else {
+            MapValueDeserializer {
+                map: self.map,
+                // Because element name already was either mapped to a field name,
+                // or to a variant name, we should not treat it as variable
+                fixed_name: true,
+            }
+            .deserialize_tuple(len, visitor)
+        }
+    }
+//@end
+//@extract de::map::MapValueVariantAccess::struct_variant | src/de/map.rs :: impl<'de, 'd, 'm, R, E> de::VariantAccess<'de> for MapValueVariantAccess<'de, 'd, 'm, R, E> where R: XmlRead<'de>, E: EntityResolver, :: fn struct_variant | serves=C07 features=serialize
+//@rewrite-opt Self::Error ==> DeError
+    fn struct_variant<V>(
+        self,
+        fields: &'static [&'static str],
+        visitor: V,
+    ) -> (r: Result<V::Value, DeError>)
+    where
+        V: Visitor<'de>,
+        requires self.ok(),
+    {
+        match self.map.de.next()? {
+            DeEvent::Start(e) => visitor.visit_map(ElementMapAccess::new(self.map.de, e, fields)?),
+            DeEvent::Text(e) => {
+                SimpleTypeDeserializer::from_text_content(e).deserialize_struct("", fields, visitor)
+            }
+            // SAFETY: the other events are filtered in `variant_seed()`
+            _ => unreachable!(),
+        }
+    }
+//@end
+}
+impl<'de> TagFilter<'de> {
+//@extract de::map::TagFilter::is_suitable | src/de/map.rs :: impl<'de> TagFilter<'de> :: fn is_suitable | serves=C07 features=serialize
+    fn is_suitable(&self, start: &BytesStart, decoder: Decoder) -> (r: Result<bool, DeError>)
+        requires start.name_len <= start.buf@.len(), *self matches TagFilter::Include(n) ==> n.name_len <= n.buf@.len(),
+    {
+        match self {
+            Self::Include(n) => Ok(n.name() == start.name()),
+            Self::Exclude(fields) => not_in(fields, start, decoder),
+        }
+    }
+//@end
+}
+impl<'de, 'd, 'm, R, E> MapValueSeqAccess<'de, 'd, 'm, R, E>
+where
+    R: XmlRead<'de>,
+    E: EntityResolver,
+{
+//@extract de::map::MapValueSeqAccess::next_element_seed | src/de/map.rs :: impl<'de, 'd, 'm, R, E> SeqAccess<'de> for MapValueSeqAccess<'de, 'd, 'm, R, E> where R: XmlRead<'de>, E: EntityResolver, :: fn next_element_seed | serves=C07 features=serialize
+//@rewrite-all .map(Some) ==> .map(|v__: T::Value| Some(v__))
+//@rewrite assert!(self.map.start.name() == e.name()); ==> 
+//@rewrite-opt Self::Error ==> DeError
+    #[verifier::exec_allows_no_decreases_clause]
+    #[verifier::loop_isolation(false)]
+    fn next_element_seed<T>(&mut self, seed: T) -> (r: Result<Option<T::Value>, DeError>)
+    where
+        T: DeserializeSeed<'de>,
+        requires old(self).ok(),
+    {
+        let decoder = self.map.de.reader.decoder();
+        let __lv1; loop
+            invariant self.ok()
+        {
+            { __lv1 = match self.map.de.peek()? {
+
+                // Stop iteration after reaching a closing tag
+                // The matching tag name is guaranteed by the reader
+                DeEvent::End(e) => {
+                    Ok(None)
+                }
+                // We cannot get `Eof` legally, because we always inside of the
+                // opened tag `self.map.start`
+                DeEvent::Eof => Err(Error::missed_end(self.map.start.name(), decoder).into()),
+
+                DeEvent::Text(_) => match self.map.de.next()? {
+                    DeEvent::Text(e) => seed.deserialize(TextDeserializer(e)).map(|v__: T::Value| Some(v__)),
+                    // SAFETY: we just checked that the next event is Text
+                    _ => unreachable!(),
+                },
+                DeEvent::Start(_) => match self.map.de.next()? {
+                    DeEvent::Start(start) => seed
+                        .deserialize(ElementDeserializer {
+                            start,
+                            de: self.map.de,
+                        })
+                        .map(|v__: T::Value| Some(v__)),
+                    // SAFETY: we just checked that the next event is Start
+                    _ => unreachable!(),
+                },
+            }; break; };
+        } __lv1
+    }
+//@end
+}
+
+// ---- enums at the top level (src/de/var.rs): the same invariants ----
+//@extract de::var::EnumAccess | src/de/var.rs :: struct EnumAccess | serves=C07 features=serialize
+ struct EnumAccess<'de, 'd, R, E>
+where
+    R: XmlRead<'de>,
+    E: EntityResolver,
+{
+    de: &'d mut Deserializer<'de, R, E>,
+}
+//@end
+//@extract de::var::VariantAccess | src/de/var.rs :: struct VariantAccess | serves=C07 features=serialize
+ struct VariantAccess<'de, 'd, R, E>
+where
+    R: XmlRead<'de>,
+    E: EntityResolver,
+{
+    de: &'d mut Deserializer<'de, R, E>,
+    /// `true` if variant should be deserialized from a textual content
+    /// and `false` if from tag
+    is_text: bool,
+}
+//@end
+impl<'de, 'd, R: XmlRead<'de>, E: EntityResolver> DeModel<'de> for &'d mut Deserializer<'de, R, E> {
+    closed spec fn de_ok(&self) -> bool { (**self).inv() }
+}
+impl<'de, R, E> Deserializer<'de, R, E>
+where
+    R: XmlRead<'de>,
+    E: EntityResolver,
+{
+    /// the forwarding `deserialize_tuple` of `&mut Deserializer` (generated by a serde macro) is not under contract
+    #[verifier::external_body]
+    pub fn deserialize_tuple<V: Visitor<'de>>(&mut self, len: usize, visitor: V) -> Result<V::Value, DeError>
+        requires old(self).inv()
+    { unimplemented!() }
+}
+impl<'de, 'd, R, E> VariantAccess<'de, 'd, R, E>
+where
+    R: XmlRead<'de>,
+    E: EntityResolver,
+{
+    /// a Start or a Text was peeked when the variant was identified; a Text if `is_text`
+    pub closed spec fn ok(&self) -> bool {
+        &&& self.de.inv()
+        &&& self.de.peeked_text() || self.de.peeked_start()
+        &&& self.is_text == self.de.peeked_text()
+    }
+//@extract de::var::VariantAccess::unit_variant | src/de/var.rs :: impl<'de, 'd, R, E> de::VariantAccess<'de> for VariantAccess<'de, 'd, R, E> where R: XmlRead<'de>, E: EntityResolver, :: fn unit_variant | serves=C07 features=serialize
+//@rewrite-opt Self::Error ==> DeError
+    fn unit_variant(self) -> (r: Result<(), DeError>)
+        requires self.ok(),
+    {
+        match self.de.next()? {
+            // Consume subtree
+            DeEvent::Start(e) => self.de.read_to_end(e.name()),
+            // Does not needed to deserialize using SimpleTypeDeserializer, because
+            // it returns `()` when `deserialize_unit()` is requested
+            DeEvent::Text(_) => Ok(()),
+            // SAFETY: the other events are filtered in `variant_seed()`
+            _ => unreachable!(),
+        }
+    }
+//@end
+//@extract de::var::VariantAccess::newtype_variant_seed | src/de/var.rs :: impl<'de, 'd, R, E> de::VariantAccess<'de> for VariantAccess<'de, 'd, R, E> where R: XmlRead<'de>, E: EntityResolver, :: fn newtype_variant_seed | serves=C07 features=serialize
+//@rewrite-opt Self::Error ==> DeError
+    fn newtype_variant_seed<T>(self, seed: T) -> (r: Result<T::Value, DeError>)
+    where
+        T: DeserializeSeed<'de>,
+        requires self.ok(),
+    {
+        if self.is_text {
+            match self.de.next()? {
+                DeEvent::Text(e) => seed.deserialize(SimpleTypeDeserializer::from_text_content(e)),
+                // SAFETY: the other events are filtered in `variant_seed()`
+                _ => unreachable!(),
+            }
+        } else {
+            seed.deserialize(self.de)
+        }
+    }
+//@end
+//@extract de::var::VariantAccess::tuple_variant | src/de/var.rs :: impl<'de, 'd, R, E> de::VariantAccess<'de> for VariantAccess<'de, 'd, R, E> where R: XmlRead<'de>, E: EntityResolver, :: fn tuple_variant | serves=C07 features=serialize
+//@rewrite-opt Self::Error ==> DeError
+    fn tuple_variant<V>(self, len: usize, visitor: V) -> (r: Result<V::Value, DeError>)
+    where
+        V: Visitor<'de>,
+        requires self.ok(),
+    {
+        if self.is_text {
+            match self.de.next()? {
+                DeEvent::Text(e) => {
+                    SimpleTypeDeserializer::from_text_content(e).deserialize_tuple(len, visitor)
+                }
+                // SAFETY: the other events are filtered in `variant_seed()`
+                _ => unreachable!(),
+            }
+        } else {
+            self.de.deserialize_tuple(len, visitor)
+        }
+    }
+//@end
+//@extract de::var::VariantAccess::struct_variant | src/de/var.rs :: impl<'de, 'd, R, E> de::VariantAccess<'de> for VariantAccess<'de, 'd, R, E> where R: XmlRead<'de>, E: EntityResolver, :: fn struct_variant | serves=C07 features=serialize
+//@rewrite-opt Self::Error ==> DeError
+    fn struct_variant<V>(
+        self,
+        fields: &'static [&'static str],
+        visitor: V,
+    ) -> (r: Result<V::Value, DeError>)
+    where
+        V: Visitor<'de>,
+        requires self.ok(),
+    {
+        match self.de.next()? {
+            DeEvent::Start(e) => visitor.visit_map(ElementMapAccess::new(self.de, e, fields)?),
+            DeEvent::Text(e) => {
+                SimpleTypeDeserializer::from_text_content(e).deserialize_struct("", fields, visitor)
+            }
+            // SAFETY: the other events are filtered in `variant_seed()`
+            _ => unreachable!(),
+        }
+    }
+//@end
+}
+impl<'de, 'd, R, E> EnumAccess<'de, 'd, R, E>
+where
+    R: XmlRead<'de>,
+    E: EntityResolver,
+{
+//@extract de::var::EnumAccess::new | src/de/var.rs :: impl<'de, 'd, R, E> EnumAccess<'de, 'd, R, E> where R: XmlRead<'de>, E: EntityResolver, :: fn new | serves=C07 features=serialize
+ fn new(de: &'d mut Deserializer<'de, R, E>) -> (r: Self)
+        ensures *r.de == *old(de), *final(r.de) == *final(de)
+ {
+        EnumAccess { de }
     }
 //@end
 }
